@@ -3,4 +3,11 @@ pub mod engine;
 pub mod fieldapi;
 pub mod ftypes;
 pub mod gen;
+pub mod points;
 pub mod props;
+pub mod selftest;
+
+/// additional self tests registered by later modules (curve constants, hash goldens)
+pub fn selftest_extra() -> Vec<String> {
+    Vec::new()
+}
